@@ -49,6 +49,7 @@ type Contract struct {
 	Logical  [][2]string // logical (universally quantified) variables: name, type text
 	TrustedFrame bool // the modifies clause is used by callers but not checked on the body (listed as assumption)
 	AssumeFresh []string // callee expression texts whose calls return freshly allocated values and modify nothing
+	PerIter    []string // captured variables of a closure that must be fresh in every iteration of the loop creating it
 	Calls      []string // function-valued parameters the function may invoke (their frames are part of this one's)
 	AssumePure []string // callee expression texts whose calls (through function values) are assumed pure
 	Requires []*Clause
@@ -103,7 +104,7 @@ type Contracts struct {
 	Scope   map[string]string // package path -> file whose imports are visible to spec/ghost/lemma declarations
 }
 
-var clauseHead = regexp.MustCompile(`^(scope|func|iface|realfloat|calls|assume_pure|assume_fresh|trusted_frame|logical|pure_heap|pure|inline|trusted|nopanic|requires|ensures|modifies|loop|capture|assert@|ghost|spec|global|lemma)\b`)
+var clauseHead = regexp.MustCompile(`^(scope|func|iface|realfloat|per_iteration|calls|assume_pure|assume_fresh|trusted_frame|logical|pure_heap|pure|inline|trusted|nopanic|requires|ensures|modifies|loop|capture|assert@|ghost|spec|global|lemma)\b`)
 var labelRe = regexp.MustCompile(`^\[([^\]]+)\]\s*`)
 
 func parseContracts(repo string) (*Contracts, error) {
@@ -196,6 +197,10 @@ func (cs *Contracts) parseFile(file, pkgPath string) error {
 						key = cur.Target[:i+1+j] + ":iface:" + rest2[j+1:]
 						cur.Trusted = true
 					}
+				} else if parts := strings.Split(cur.Target, "."); len(parts) == 3 {
+					// standard-library interface: "io.Writer.Write"
+					key = parts[0] + ":iface:" + parts[1] + "." + parts[2]
+					cur.Trusted = true
 				}
 			}
 			if _, dup := cs.ByKey[key]; dup {
@@ -271,6 +276,8 @@ func (cs *Contracts) parseFile(file, pkgPath string) error {
 				cur.AssumeFresh = append(cur.AssumeFresh, strings.ReplaceAll(rest, " ", ""))
 			case "calls":
 				cur.Calls = append(cur.Calls, strings.TrimSpace(rest))
+			case "per_iteration":
+				cur.PerIter = append(cur.PerIter, strings.TrimSpace(rest))
 			case "assume_pure":
 				cur.AssumePure = append(cur.AssumePure, strings.ReplaceAll(rest, " ", ""))
 			case "requires":
